@@ -402,7 +402,15 @@ func (p *FSM) RecoverFromSnapshot(r io.Reader, stopc <-chan struct{}) error {
 	if err != nil {
 		return err
 	}
-	return p.getRecoverer(header.snapshotType()).recover(r, stopc)
+	if err := p.getRecoverer(header.snapshotType()).recover(r, stopc); err != nil {
+		return err
+	}
+	// The table jumped to the state of the snapshot, those who wait for a leader index have to hear where it stands
+	// now (as they do when the table is opened), there may be no update to tell them for a long time.
+	if lx, _ := readLocalIndex(p.pebble.Load(), sysLeaderIndex); lx != 0 {
+		p.appliedFunc(lx)
+	}
+	return nil
 }
 
 func (p *FSM) Collect(ch chan<- prometheus.Metric) {
